@@ -116,6 +116,18 @@ def reach(st, m, s, v):
     if getattr(g, "concrete", None) is not None:
         return _reach_concrete(g.concrete, s, v)
     f = reach_fn(g)
+    if not z3.is_const(g.arr) or g.arr.decl().kind() != z3.Z3_OP_UNINTERPRETED:
+        # give the array term a name so that reach(...) terms are usable as quantifier patterns
+        names = st.env.get("__names__", {})
+        aid = g.arr.get_id()
+        if aid not in names:
+            nm = z3.Const(V.fresh_name("conn"), g.arr.sort())
+            st.pc.append(nm == g.arr)
+            names = dict(names)
+            names[aid] = nm
+            st.env["__names__"] = names
+        g = Grid(g.dims, names[aid], g.kind, g.count, g.dtype)
+        m = Rec("LatticeMaze", {"connection_list": g})
     key = ("reach", g.arr.get_id(), to_z3(R).get_id(), to_z3(C).get_id())
     seen = st.env.get("__axioms__", frozenset())
     if key not in seen:
@@ -123,16 +135,19 @@ def reach(st, m, s, v):
         s0, s1, u0, u1, v0, v1 = [z3.Int(V.fresh_name(n)) for n in ("s0", "s1", "u0", "u1", "v0", "v1")]
         rr = lambda a, b, c, d: f(g.arr, to_z3(R), to_z3(C), a, b, c, d)
         ing = lambda a, b: z3.And(a >= 0, a < to_z3(R), b >= 0, b < to_z3(C))
-        st.pc.append(z3.ForAll([s0, s1], z3.Implies(ing(s0, s1), rr(s0, s1, s0, s1))))
-        st.pc.append(
+        ax = [
+            z3.ForAll([s0, s1], z3.Implies(ing(s0, s1), rr(s0, s1, s0, s1))),
             z3.ForAll(
                 [s0, s1, u0, u1, v0, v1],
                 z3.Implies(z3.And(rr(s0, s1, u0, u1), to_z3(edge(m, (u0, u1), (v0, v1)))), rr(s0, s1, v0, v1)),
                 patterns=[z3.MultiPattern(rr(s0, s1, u0, u1), rr(s0, s1, v0, v1))],
-            )
-        )
-        # reach only relates in-grid cells
-        st.pc.append(z3.ForAll([s0, s1, v0, v1], z3.Implies(rr(s0, s1, v0, v1), z3.And(ing(s0, s1), ing(v0, v1)))))
+            ),
+            # reach only relates in-grid cells
+            z3.ForAll([s0, s1, v0, v1], z3.Implies(rr(s0, s1, v0, v1), z3.And(ing(s0, s1), ing(v0, v1)))),
+        ]
+        for a_ in ax:
+            st.pc.append(a_)
+            st.tagmap[a_.get_id()] = "axiom:reach"
     a0, a1 = _coord(s)
     b0, b1 = _coord(v)
     return f(g.arr, to_z3(R), to_z3(C), to_z3(a0), to_z3(a1), to_z3(b0), to_z3(b1))
@@ -386,7 +401,13 @@ def sp_all_cands(interp, st, args, kwargs, node):
     return b_and(*out)
 
 
+def sp_maze_of(interp, st, args, kwargs, node):
+    """the maze whose connection structure is the given array (to talk about edge/reach of a local array)"""
+    return Rec("LatticeMaze", {"connection_list": args[0]})
+
+
 SPEC_FUNCTIONS = {
+    "maze_of": sp_maze_of,
     "all_cands": sp_all_cands,
     "distinct_rows": sp_distinct_rows,
     "nrows": sp_nrows,
